@@ -10,6 +10,9 @@ from util import *
 
 def _place_of(an, x, places):
     x = strip_all(x)
+    for i, pl in enumerate(places):
+        if isinstance(pl, str) and is_self_field(x, pl):
+            return i
     if x[0] in ('phi', 'mem'):
         return places.index(x[1]) if x[1] in places else None
     if x[0] == 'rec':
@@ -36,12 +39,19 @@ def _classify(an, t, places):
     return '?'
 
 
-def run(ctx, b, places):
-    """{block: set(states at block entry)}; a state is a tuple over `places` of 'S'/'N'"""
+def run(ctx, b, places, entry=None, want_exits=False):
+    """{block: set(states at block entry)}; a state is a tuple over `places` of 'S'/'N'.
+    places: local indices, or field names of `self` (first parameter).  entry: set of states at function entry
+    (default: every combination).  With want_exits the states at the normal returns are returned as well."""
     an = ctx.an(b)
     cfg = an.cfg
     events = {}
     for li, l in enumerate(places):
+        if isinstance(l, str):
+            for a, v, pt, kind in an.stores:
+                if kind == 'assign' and is_self_field(strip_all(a), l):
+                    events.setdefault(pt, []).append((li, _classify(an, v, places)))
+            continue
         for d in an.defs_of.get(l, []):
             if d.kind == 'param' or d.bb < 0:
                 continue
@@ -104,18 +114,21 @@ def run(ctx, b, places):
                     return [(tgt, st)] if tgt in succ else []
         return [(y, st) for y in succ]
 
-    # initial state: unknown for every place (the initialising assignments refine it)
-    init = [tuple(x) for x in _product(len(places))]
+    # initial state: unknown for every place (the initialising assignments refine it) unless given
+    init = sorted(entry) if entry is not None else [tuple(x) for x in _product(len(places))]
     at = {0: set(init)}
     work = [(0, s) for s in init]
+    exits = set()
     while work:
         bb, st = work.pop()
         for st2 in exec_block(bb, st):
+            if b.blocks[bb]['t']['k'] == 'return':
+                exits.add(st2)
             for y, st3 in successors(bb, st2):
                 if st3 not in at.setdefault(y, set()):
                     at[y].add(st3)
                     work.append((y, st3))
-    return at
+    return (at, exits) if want_exits else at
 
 
 def _product(n):
